@@ -9,5 +9,8 @@ CONSTANTS
   Modes = {"never", "whole", "prefix"}
   Pieces = {0, 1}
   GivenFile = ""
-INVARIANTS NeverFails AlwaysFails NeverSkips
+  MaxCalls = 2
+  LaterModes = {"never", "whole", "prefix"}
+  FreshPerCall = TRUE
+INVARIANTS NeverFails AlwaysFails NeverSkips NoHistory
 CHECK_DEADLOCK FALSE
